@@ -4,6 +4,7 @@ and interleaved by a schedule chosen HERE (seeded random).  Every start / releas
 pending sets of ALL requests it leaves are logged; TLC validates each execution against a
 product of independent copies of the scheduler specification (Trace_multi)."""
 import random
+import zlib
 
 import genrun
 import render
@@ -26,6 +27,9 @@ def job(j):
             return
         # at most two failure variants per document, so that the pool holds many different documents
         key = repr(rec["nodes"])
+        # (which variants: a seed-dependent third of them, so that the failures do not always sit at the first positions)
+        if (zlib.crc32(repr(rec["overlay"]).encode()) + seed) % 3 != 0:
+            return
         st["perdoc"][key] = st["perdoc"].get(key, 0) + 1
         if st["perdoc"][key] > 2:
             return
